@@ -362,14 +362,14 @@ func c19(c *core.Ctx) {
 	var openArg, renameArg ssa.Value
 	var renameCall ssa.CallInstruction
 	for _, cs := range ssax.Calls(load, false, ssax.ByName("os.OpenFile", "os.ReadFile", "os.Open", "io/ioutil.ReadFile")) {
-		openArg = cs.Instr.Common().Args[0]
+		openArg = rawArgs(cs.Instr)[0]
 	}
 	for _, cs := range ssax.Calls(save, false, ssax.ByName("os.Rename", "os.WriteFile", "io/ioutil.WriteFile")) {
 		renameCall = cs.Instr
 		if cs.Callee.Name == "os.Rename" {
-			renameArg = cs.Instr.Common().Args[1]
+			renameArg = rawArgs(cs.Instr)[1]
 		} else {
-			renameArg = cs.Instr.Common().Args[0]
+			renameArg = rawArgs(cs.Instr)[0]
 		}
 	}
 	if openArg == nil || renameArg == nil {
